@@ -10,10 +10,11 @@ Oracle (independent of the model): PsV.gridSpec = Sum_idx coef*Prod_d B_d (exact
 within the envelope, index ranges = grid lengths, unlisted => spec value exactly 0; real pointwise ndsplineeval<float> at every
 grid point strictly inside the knot range within (K_d*2^-53 + K_f*2^-24)*Sum|coef|Prod|B| wherever the right-continuous
 basis of grideval and the evaluation convention coincide (PsV.gridSpec == PsV.specEval, decided exactly)."""
-import json, os, struct
+import json, os, struct, sys
 from fractions import Fraction
 import psvlib
 
+if hasattr(sys, "set_int_max_str_digits"): sys.set_int_max_str_digits(0)
 U53 = Fraction(1, 2 ** 53)
 U24 = Fraction(1, 2 ** 24)
 
@@ -55,7 +56,7 @@ def all_idx(ranges):
 
 def run(ctx):
     ctx.audit()
-    ncases = 70 if ctx.tier == "quick" else 500
+    ncases = 150 if ctx.tier == "quick" else 2500
     modes = ["shipped", "san"]
     evals = 0; nontriv = set(); dist = {}
     worst_d = Fraction(0); worst_f = Fraction(0)
